@@ -1,7 +1,9 @@
 package checks
 
 import (
+	"fmt"
 	"testing"
+	"time"
 
 	"verif/mc/h"
 	w "verif/mc/world"
@@ -30,6 +32,28 @@ func TestC04(t *testing.T) {
 	pinned.tpls = []string{"A", "B+notname:zzz", "C+notname:n2"}
 	pinned.first = []w.Event{evb("setTemplate", edsKey, "B+notname:zzz")}
 	scs = append(scs, pinned)
+	// a replica set that was active for a long time, was superseded by a validated canary and becomes the canary again
+	// (template reverted) before it was ever synced as a leftover; then it is validated: active for the second time
+	again := corpusS3([]string{"n1", "n2"}, "1", "manual", 1, &w.Alpha{Kubectl: []string{"canary-validate"}})
+	again.name = "S3-active-canary-active-again"
+	again.first = nil
+	again.prepare = func(t *testing.T, sc *w.Scenario, s0 *w.State) *w.State {
+		do := func(s *w.State, e w.Event) *w.State {
+			out := w.Step(t, sc, s, e)
+			if out.CmdErr != nil {
+				panic(fmt.Sprintf("prepare %s: %s failed: %v", sc.Name, e, out.CmdErr))
+			}
+			return out.Next
+		}
+		s0 = do(s0, w.Event{K: "tick", N: 400}) // the first replica set has been active for more than five minutes
+		r := w.Closure(t, sc, do(s0, evb("setTemplate", edsKey, "B")), w.ClosureOpts{SkipJumps: true, MaxStep: 10 * time.Second})
+		if !r.Converged {
+			panic("prepare " + sc.Name + ": " + r.Why)
+		}
+		s := do(do(r.Final, evb("kubectl", edsKey, "canary-validate")), ev("R_eds", edsKey)) // B promoted; A not synced since
+		return do(do(s, evb("setTemplate", edsKey, "A")), ev("R_eds", edsKey))               // A is the canary
+	}
+	scs = append(scs, again)
 	if h.Thorough() {
 		faulty := canaryDev()
 		faulty.EDSFaults = []string{"lost:update ExtendedDaemonSet", "reject:list Node", "reject:list Pod"}
